@@ -389,8 +389,30 @@ func (u *Unit) checkPost(o Outcome) {
 		u.retVals = []Value{}
 	}
 	defer func() { u.retVals = nil }()
+	// "hint": an intermediate fact about the exit state, proved first (obligation post/hint/<label>) and then available to the
+	// postconditions that follow (a lemma placed at the return; never exported to callers).  A hint that cannot be stated on
+	// a path (it names a call that did not happen there) is skipped on that path.
+	for i, cl := range u.Block.Of("hint") {
+		if cl.Label == "" {
+			cl.Label = fmt.Sprintf("h%d", i)
+		}
+		sc := *u.ownCtx
+		sc.post = true
+		t, herr := u.trySpec(cl, o.env, &sc)
+		if herr != "" {
+			continue
+		}
+		pos := o.pos
+		if !pos.IsValid() {
+			pos = u.FI.Decl.End()
+		}
+		u.assert(o.env, "post/hint/"+cl.Label, "post", pos, cl.Text, t)
+		o.env.assume(t)
+	}
 	var ens []Clause
-	for i, cl := range u.Block.Of("ensures") {
+	// "ensures@body": proved at every return like "ensures", but not part of what callers may assume (it may name things that
+	// only exist inside the body, such as the results of an opaque library call)
+	for i, cl := range append(u.Block.Of("ensures"), u.Block.Of("ensures@body")...) {
 		if cl.Label == "" {
 			cl.Label = fmt.Sprintf("ens%d", i)
 		}
